@@ -66,4 +66,14 @@ theorem scanLoop_spec (cfg : Cfg) (hd : cfg.d ≠ .go) : ∀ (fuel : Nat) (st : 
         rw [← h3] at hseq
         exact Seq.cons _ _ _ hfacts hk hseq
 
+
+/-- `scan` finishes (dialects xgo, tpl): neither out of fuel nor a panic -/
+theorem scan_done (cfg : Cfg) (hd : cfg.d ≠ .go) (src : Array UInt8) : (scan cfg src).status = .done := by
+  have hg : Good src (initSt src) := ⟨initSt_inv src, initSt_fail src, by simp, by simp [slice_self]⟩
+  have hmu : mu src (initSt src) < scanFuel src := by
+    unfold mu scanFuel; simp; omega
+  obtain ⟨ts, errs, he, _⟩ := scanLoop_spec cfg hd (scanFuel src) (initSt src) [] hg hmu
+  unfold scan
+  rw [he]
+
 end GopModel.Scan
